@@ -242,6 +242,8 @@ async fn build_state(fam: &ColFam, index: &str, history: &[HOp]) -> Result<State
                     (vec![5i64, 6], dom[0].clone())
                 };
                 st.updates += 1;
+                // an empty list literal `[]` has no element type in SQL: use a non-empty list instead
+                let newv = if matches!(&newv, Cell::L(items) if items.is_empty()) { dom[1].clone() } else { newv };
                 let sql = typed_lit_sql(&newv, dt);
                 let val = if matches!(dt, DataType::List(_)) {
                     match &newv {
@@ -931,6 +933,7 @@ pub(crate) fn run_plan(ctx: &Ctx, plan: Plan) -> Outcome {
     let mut done = 0u64;
     let mut index_used = 0u64;
     let mut unsupported: BTreeMap<String, u64> = BTreeMap::new();
+    let mut setup_rejected: BTreeMap<String, u64> = BTreeMap::new();
     let mut merr = vec![];
     for (fl, i, h, r) in results {
         match r {
@@ -949,6 +952,11 @@ pub(crate) fn run_plan(ctx: &Ctx, plan: Plan) -> Outcome {
             Err(e) if e == "budget" => complete = false,
             Err(e) if e.starts_with("create_index") => {
                 *unsupported.entry(format!("{fl}/{i}: {}", err_shape(&e))).or_insert(0) += 1;
+            }
+            // a history step that Lance rejects with an explicit invalid-input / not-supported error:
+            // recorded, the item is skipped (panics and wrong results stay judged)
+            Err(e) if e.contains("Invalid user input") || e.contains("InvalidInput") || e.contains("Not supported") || e.contains("NotSupported") || e.contains("not supported") => {
+                *setup_rejected.entry(format!("{fl}/{i}/{}: {}", hist_label(&h), err_shape(&e))).or_insert(0) += 1;
             }
             Err(e) => merr.push(format!("{fl}/{i}/{h:?}: {e}")),
         }
@@ -969,6 +977,7 @@ pub(crate) fn run_plan(ctx: &Ctx, plan: Plan) -> Outcome {
     out.set("items_whose_plan_uses_the_index", index_used);
     out.set("rejected_under_both_settings_not_judged", json!(rejected));
     out.set("index_kind_not_supported_for_type", json!(unsupported));
+    out.set("history_setup_step_rejected_not_judged", json!(setup_rejected));
     if !complete {
         out.set("cap_hit", "wall budget");
     }
